@@ -23,7 +23,7 @@ def build_case(u):
 def run(rep, tier):
     G = drivers.load()
     rep.rule = ("Hypothesis v3 histories of 1..10 requests (get/get_many up to 40 oids/getnext/getbulk/refresh) with replies that "
-                "move boots/time through all INTEGER widths; engine id 5..32 octets, user name 0..32 octets, MD5/SHA-1/none x "
+                "move boots/time through all INTEGER widths; engine id 5..32 (sometimes up to 256) octets, user name 0..32 (sometimes up to 300) octets, sessions keyed by the constructor or by set_keys(), foreign Reports interleaved, MD5/SHA-1/none x "
                 "none/DES/AES x key types. Every emitted datagram's MAC is recomputed with hmac/hashlib. Non-trivial = message with a "
                 "long-form length before the auth field or sent after a prior send+receive; distinct by (cfg, steps).")
     rep.assumptions = ["hashlib/hmac and the RFC 3414 A.2 key derivation in refusm.py (checked on the RFC vectors at import)"]
